@@ -142,6 +142,33 @@ def _const_edges(e: ast.expr) -> Tuple[Optional[str], Optional[str], bool]:
     return None, None, False
 
 
+_ONE_SHOT_CALLS = ("map", "filter", "iter", "reversed", "zip", "enumerate", "chain")
+
+
+def _one_shot_reason(e: Optional[ast.expr], tree: ast.AST) -> Optional[str]:
+    """Why ``e`` may be a one-shot iterator (None: it is a list / tuple / name bound only to such)."""
+    if e is None:
+        return "no entries argument"
+    if isinstance(e, ast.GeneratorExp):
+        return "a generator expression is exhausted by the first iteration"
+    if isinstance(e, ast.Call):
+        f = e.func
+        name = f.attr if isinstance(f, ast.Attribute) else (f.id if isinstance(f, ast.Name) else "")
+        if name in _ONE_SHOT_CALLS:
+            return f"{name}(...) is a one-shot iterator"
+        return None
+    if isinstance(e, ast.Name):
+        for n in ast.walk(tree):
+            if isinstance(n, (ast.Assign, ast.AnnAssign)):
+                targets = n.targets if isinstance(n, ast.Assign) else [n.target]
+                if any(isinstance(t, ast.Name) and t.id == e.id for t in targets) and n.value is not None \
+                        and not isinstance(n.value, ast.Name):
+                    why = _one_shot_reason(n.value, tree)
+                    if why is not None:
+                        return f"{e.id} is bound (line {n.lineno}) to a one-shot iterator: {why}"
+    return None
+
+
 def scan_report_headlines(loader: Any) -> List[Dict[str, Any]]:
     import pathlib
     res: List[Dict[str, Any]] = []
@@ -164,6 +191,16 @@ def scan_report_headlines(loader: Any) -> List[Dict[str, Any]]:
             if msg is None:
                 continue
             n += 1
+            # the entries are iterated twice (by the @require of write_error_report and by its body): they have to
+            # be a re-iterable sequence, never a one-shot iterator
+            ent = next((kw.value for kw in node.keywords if kw.arg == "errors"),
+                       node.args[1] if len(node.args) > 1 else None)
+            one_shot = _one_shot_reason(ent, tree)
+            res.append({"key": f"{rel}:write_error_report#{n}:entries-are-a-sequence", "ok": one_shot is None,
+                        "line": node.lineno, "func": str(rel),
+                        "desc": "the entries passed to write_error_report are a re-iterable sequence (no entry is "
+                                "dropped by iterating them twice)",
+                        "detail": None if one_shot is None else f"line {node.lineno}: {one_shot}"})
             first, last, full = _const_edges(msg)
             key = f"{rel}:write_error_report#{n}:headline"
             problems = []
